@@ -162,6 +162,7 @@ func (d *Decls) axiom(key, ax string) {
 
 // Env is the evaluation environment of one function body or contract.
 type Env struct {
+	callBase    int  // step clauses: called() looks at st.calls[callBase:] only (the calls of this iteration)
 	noReadEvent bool // evaluating the operand of & (no "read:<var>" event)
 	c        *Ctx
 	fn       *FuncInfo
